@@ -23,6 +23,13 @@ def holds_at(pcs, ev):
     """True: every condition definitely has its recorded polarity; False: some condition definitely has the other; None: unknown"""
     res = True
     for c, pol in pcs or []:
+        if isinstance(c, tuple) and c and c[0] == "arm":
+            v = ev(c)               # ("arm", scrutinee, pattern): evaluators that know patterns may decide it
+            if v is None:
+                res = None if res is True else res
+            elif v != pol:
+                return False
+            continue
         if not isinstance(c, dict):
             continue
         v = eval3(c, ev)
@@ -105,7 +112,16 @@ def outcomes(root, ev, classify):
             run(n["scrut"], False)
             falls = False
             for a in n["arms"]:
+                # first-match semantics: an arm whose pattern (and guard) is decided false is skipped; one decided true ends the match
+                pv = ev(("arm", n["scrut"], a["pat"]))
+                if (a.get("pat") or {}).get("k") == "Wild" and pv is None:
+                    pv = True
+                gv = eval3(a["guard"], ev) if "guard" in a else True
+                if pv is False or gv is False:
+                    continue
                 falls = run(a["body"], tail) or falls
+                if pv is True and gv is True:
+                    break
             return falls
         if k in ("Loop",):
             run(n.get("body"), False)
@@ -238,3 +254,63 @@ def pure_eval(db, f, args):
         return ev(f.hir, {})
     except Unknown:
         return None
+
+
+
+def select(db, f, e, ev, depth=0):
+    """the expression a value expression evaluates to under the three-valued atom assignment `ev`: follows immutable lets
+    (including tuple destructuring), picks the branch of an `if` whose condition is decided, the tail of a block, and the
+    helper-return of an inlined block taken under a decided condition.  Returns a node (possibly `e` itself when nothing is
+    decided)."""
+    from .origins import index as oindex
+    if depth > 24 or not isinstance(e, dict):
+        return e
+    e = peel_casts(e)
+    k = e.get("k")
+    if k == "Path" and e.get("res") == "local":
+        bd = oindex(db).bindings(f).get(e["lid"])
+        if bd and bd[0] == "let" and bd[1] is not None:
+            pat = bd[2] or {}
+            if pat.get("k") == "Bind" and "Mut" not in (pat.get("mode") or ""):
+                return select(db, f, bd[1], ev, depth + 1)
+            if pat.get("k") in ("TupleStruct", "Struct") and path_ends(pat.get("path") or "", ("Option::Some", "Some", "Result::Ok", "Ok")):
+                # `if let Some(x) = E`: x is the payload when E evaluates to Some(payload)
+                subs = pat.get("pats") or [fl.get("pat") for fl in pat.get("fields", [])]
+                if len(subs) == 1 and (subs[0] or {}).get("k") == "Bind" and subs[0].get("lid") == e["lid"]:
+                    src = peel(select(db, f, bd[1], ev, depth + 1))
+                    if isinstance(src, dict) and src.get("k") == "Call" and path_ends(src.get("callee") or "", ("Option::Some", "Some", "Result::Ok", "Ok")) and src.get("args"):
+                        return select(db, f, src["args"][0], ev, depth + 1)
+                return e
+            if pat.get("k") == "Tuple":
+                src = select(db, f, bd[1], ev, depth + 1)
+                src = peel(src)
+                if isinstance(src, dict) and src.get("k") == "Tup":
+                    for i, sub in enumerate(pat["pats"]):
+                        if sub.get("k") == "Bind" and sub.get("lid") == e["lid"] and i < len(src["elems"]):
+                            return select(db, f, src["elems"][i], ev, depth + 1)
+        return e
+    if k == "If" and "else" in e:
+        v = eval3(e["cond"], ev)
+        if v is True:
+            return select(db, f, e["then"], ev, depth + 1)
+        if v is False:
+            return select(db, f, e["else"], ev, depth + 1)
+        return e
+    if k == "Block":
+        # an early helper-return under a decided condition wins over the tail
+        for st in e.get("stmts", []):
+            x = st.get("e") if st["k"] in ("Expr", "Semi") else None
+            x = peel(x) if isinstance(x, dict) else None
+            if isinstance(x, dict) and x.get("k") == "If":
+                v = eval3(x["cond"], ev)
+                br = x["then"] if v is True else x.get("else") if v is False else None
+                if v is None and any(y.get("k") == "BreakValue" for y, _ in __import__("sverif.db", fromlist=["walk"]).walk(x)):
+                    return e            # undecided early return: unknown
+                if br is not None:
+                    for y, _ in __import__("sverif.db", fromlist=["walk"]).walk(br):
+                        if y.get("k") == "BreakValue" and "e" in y:
+                            return select(db, f, y["e"], ev, depth + 1)
+        if "expr" in e:
+            return select(db, f, e["expr"], ev, depth + 1)
+        return e
+    return e
